@@ -60,9 +60,15 @@ def run(ck):
                         "second pass re-aligns against the references as received (as C08.13)")
     c08._aligned_rest(RuleView(ck, {"C08.13": "C10.11"}), {}, None)
     from ..rules.iters import run_iterator_rule
-    n_b = run_iterator_rule(ck, "C10.5")
-    ck.floor("C10.5 single-use iterators bound to a local name (repository-wide)", n_b, 6)
-    ck.ok("C10.5", "repository", "src/, sv/", f"{n_b} single-use iterators bound to a name, each read once (cursor idiom next(it) excepted)")
+    # where one iterator runs over the data of several molecules or references: coordinators, seed selection, row grouping, readers
+    # (inside the aligner / chainer / resolver an iterator only ever covers one query on one reference - no concern of this property)
+    span = ("src.workflow_coordinator", "src.multi_pass_workflow_coordinator", "src.correlation.peaks_selector",
+            "src.alignment.alignment_results", "src.program", "src.correlation.optical_map")
+    it_fns = [f for f in ck.ctx.p.nontest_functions() if f.module.name in span or f.module.name.startswith("src.parsers.")]
+    n_b = run_iterator_rule(ck, "C10.5", it_fns)
+    ck.floor("C10.5 functions scanned for re-read single-use iterators", len(it_fns), 60)
+    ck.ok("C10.5", "run-level modules", "src/", f"{len(it_fns)} functions, {n_b} single-use iterators bound to a name, each read once "
+          "(cursor idiom next(it) excepted)")
 
 
 def run_global_conditions(ck):
@@ -210,6 +216,13 @@ def module_state(ck, fns=None, floor=120, skip_scalar=False):
             if isinstance(node, (ast.Global, ast.Nonlocal)) and isinstance(node, ast.Global):
                 ck.violation("C10.1", short(f) + ":global", where(f, node), "`global` statement on the run path: state shared "
                              "between queries", found=ast.unparse(node))
+        for pname, dflt, mnode in E.mutated_mutable_defaults(f):
+            if not E.default_is_used(ctx, f, pname):
+                continue
+            ck.violation("C10.1", short(f) + ":mutable-default:" + pname, where(f, mnode),
+                         f"parameter `{pname}` defaults to one shared mutable object ({ast.unparse(dflt)}) and is changed in place: what "
+                         "one call leaves in it is there for the next call in the same process - results of later molecules contain "
+                         "those of earlier ones", found=ast.unparse(mnode)[:120], required="a fresh object per call (default None)")
         for attr, stmt in E.attribute_stores(f):
             bt = ctx.t.type_of(f, attr.value)
             if isinstance(bt, (ClsT, ModT)):
